@@ -2,6 +2,7 @@ import Katib.Base.Hex
 import Katib.Drv.C11
 import Katib.Drv.Status
 import Katib.Drv.Sim
+import Katib.Drv.C19
 import Katib.Oracle.Sim
 open Katib Katib.Drv
 
@@ -11,6 +12,7 @@ def handle (toks : List String) : String :=
   | "C11" :: r => handleC11 r
   | "C05" :: r => handleStatus r
   | "C03" :: r => handleStatus r
+  | "C19" :: r => handleC19 r
   | _ => "bad-op"
 
 /-- oracle verdict for one `op => observed-output` line -/
@@ -19,6 +21,7 @@ def handleOracle (toks out : List String) : String :=
   | "C11" :: r => oracleLineC11 r out
   | "C05" :: r => oracleLineStatus "C05" r out
   | "C03" :: r => oracleLineStatus "C03" r out
+  | "C19" :: r => oracleLineC19 r out
   | _ => "bad-op"
 
 def splitArrow (toks : List String) : List String × List String :=
